@@ -224,12 +224,23 @@ def run_S2(chk):
     ch = Charges(f.node)
     got = reduce_signs(ch.ev(s[0][1], {"t": Poly.sym("c<t_leg>")}), ch.sigs)
     sg = [x for x in ch.sigs]
-    chk.require(len(sg) == 1, "remove_leg: one signature symbol expected")
-    want = n_sym("a") - Poly.sym(sg[0]) * Poly.sym("c<t_leg>")
-    chk.verdict("S2", (f, s[0][0]), f"remove_leg: n = {A.short(s[0][1], 50)}", True if (got - want).is_zero() else False,
-                f"remove_leg(): total charge evaluates to [{got}], the algebra dictates [{want}] (n(a) - s_leg*t_leg)")
-    chk.verdict("S2", (f, s[0][0]), "remove_leg: signature of the removed leg", True if sg[0] == "sig<a.struct.s[haxis]>" else False,
-                f"remove_leg(): the signature used is `{sg[0]}`, not that of the removed native leg a.struct.s[haxis]")
+    if not sg:
+        chk.bad("S2", (f, s[0][0]), f"remove_leg: n = {A.short(s[0][1], 50)}",
+                f"remove_leg(): total charge evaluates to [{got}], which does not involve the signature of the removed leg; the algebra dictates "
+                f"n(a) - s_leg*t_leg: for a leg of signature +1 carrying a non-zero charge every block of the result violates the selection rule "
+                f"(right only for s_leg = -1, the default of add_leg, and for Z2)")
+        sg = None
+    chk.require(sg is None or len(sg) == 1, "remove_leg: one signature symbol expected")
+    if sg is None:
+        return_early = True
+    else:
+        return_early = False
+    want = n_sym("a") - Poly.sym(sg[0] if sg else "sig<?>") * Poly.sym("c<t_leg>")
+    if not return_early:
+        chk.verdict("S2", (f, s[0][0]), f"remove_leg: n = {A.short(s[0][1], 50)}", True if (got - want).is_zero() else False,
+                    f"remove_leg(): total charge evaluates to [{got}], the algebra dictates [{want}] (n(a) - s_leg*t_leg)")
+        chk.verdict("S2", (f, s[0][0]), "remove_leg: signature of the removed leg", True if sg[0] == "sig<a.struct.s[haxis]>" else False,
+                    f"remove_leg(): the signature used is `{sg[0]}`, not that of the removed native leg a.struct.s[haxis]")
     # factorisations: total charge of every struct returned by the meta functions, identified by its position in the returned
     # tuple and evaluated separately for each value of the boolean knob (independent of if/else vs conditional expression,
     # of temporaries and of local names)
@@ -332,10 +343,49 @@ def run_S2(chk):
                     chk.undecided("S2", (f, c), c, "construction of a total charge that is not in the charge-flow table")
 
 
+def run_S1_axes(chk):
+    """the axis-range guard shared by tensordot / trace / vdot-like operations accepts exactly the positions 0 .. ndim-1: decided by
+    evaluating the guards of _unpack_trans_test_axes_pair (single-assignment temporaries inlined) on witness axis tuples.  A negative
+    position passes Python indexing further down (the contraction is carried out) while the bookkeeping of meta-fusions compares
+    positions by value -- the result has more meta legs than native ones."""
+    from ..core.minieval import evaluate, CannotEvaluate
+    prog = chk.prog
+    f = prog.func("yastn.tensor._tests", "_unpack_trans_test_axes_pair")
+    inl = A.Inliner(f.node)
+    pa, pb = f.params[0], f.params[1]
+    guards = []
+    for n in A.walk_local(f.node):
+        if isinstance(n, ast.If) and any(isinstance(b_, ast.Raise) for b_ in n.body):
+            t = inl.expand(n.test)
+            tx = A.text(t)
+            if "axes" in tx and ".ndim" in tx:
+                guards.append((n, t))
+    if not guards:
+        chk.bad("S1", f, "axis-range guard", f"{f.short}(): no guard compares the user's axes with the number of legs: positions outside 0..ndim-1 are "
+                f"not rejected")
+        return
+    invalid = [((-1,), (0,)), ((0,), (-1,)), ((3,), (0,)), ((0,), (2,)), ((0, 5), (1, 0)), ((-3,), (1,))]
+    valid = [((0, 2), (1, 0)), ((), ()), ((1,), (0,)), ((2,), (1,))]
+
+    def rejects(w):
+        env = {"axes": w, f"{pa}.ndim": 3, f"{pb}.ndim": 2}
+        return any(bool(evaluate(t, env)) for n, t in guards)
+    try:
+        missed = [w for w in invalid if not rejects(w)]
+        wrongly = [w for w in valid if rejects(w)]
+    except CannotEvaluate as e:
+        raise AnalysisError(f"{f.short}: axis-range guard `{A.short(guards[0][0].test)}` cannot be evaluated ({e})")
+    chk.verdict("S1", (f, guards[0][0]), f"axis-range guard `{A.short(guards[0][0].test, 60)}` evaluated on witness axes", False if (missed or wrongly) else True,
+                f"{f.short}(): for operands with 3 and 2 legs the guard accepts the out-of-range axes {missed}" + (f" and rejects the valid {wrongly}" if wrongly else "")
+                + ": a negative contracted axis is resolved by Python indexing in _unpack_axes (the contraction is performed) while the callers drop "
+                  "meta-fusions by `ii not in axes`: the result keeps a meta-fusion entry for a leg it no longer has (ill-formed tensor)")
+
+
 def run_S1(chk):
     """selection rule applied where blocks are created; loaders validate"""
     prog = chk.prog
     chk.rule("S1", "blocks are created only for charges satisfying the selection rule; loaders validate what they build", floor=6)
+    run_S1_axes(chk)
     f = prog.func(INI, "set_block")
     cfg = CFG(f.node)
     stmts = [n.ast for n in cfg.nodes if n.ast is not None]
